@@ -20,7 +20,7 @@
 
    Limiter tokens of the per-client limiter and the inline/replay hand-off are compared
    differentially only; see props/C05/NOTES.md. *)
-From Sdns Require Import Common.Base Gen.C05 C05.Model C05.Proofs C05.Proofs_libfuel C05.Ladder C05.Proofs_ladder C05.Edns C05.Proofs_edns C05.Proofs_gen3.
+From Sdns Require Import Common.Base Gen.C05 C05.Model C05.Proofs C05.Proofs_libfuel C05.Ladder C05.Proofs_ladder C05.Edns C05.Proofs_edns C05.Proofs_gen3 C05.Proofs_loops.
 Open Scope N_scope.
 
 (* the strict admission never accepts what the library rejects, and reads the same facts *)
@@ -157,4 +157,24 @@ Theorem wire_opt_bytes_fill_reserve : forall (srv : list N -> list N) w ede body
   N.of_nat (length body) + wire_opt_len w + ede_reserve (option_map ede_eopt ede).
 Proof. exact append_wire_opt_fills_reserve. Qed.
 Print Assumptions wire_opt_bytes_fill_reserve.
+
+(* ---- stage-3 LOOP ties (srcgen loopfunc): the two loops of the strict admission ---- *)
+
+(* the question-name loop of Request.ParseWire, translated from source, is Model.pw_name: at every
+   budget k and offset it ends the same way (fell through / returned false / out of budget) and, when it
+   falls through, at the offset the model computes *)
+Theorem parse_wire_name_loop_is_source : forall f k raw off,
+  let r := go_Request_ParseWire_loop1 f k raw (Z.of_N off) in
+  fst r = name_loop_ctl (pw_name k raw off) /  (forall o, pw_name k raw off = Ok o -> snd r = (raw, Z.of_N o)).
+Proof. exact gen_pw_name_loop. Qed.
+Print Assumptions parse_wire_name_loop_is_source.
+
+(* the option walk of Request.parseWireOPT, translated from source over the whole Request record, with its
+   closing [return off == end], is Model.pw_opts: accepted with the same cookie offset/length and
+   NSID/ECS/keepalive facts written to the receiver, refused (inside the loop or by the closing test)
+   exactly when the model declines, out of budget exactly when the model is *)
+Theorem parse_wire_opt_walk_is_source : forall f k raw r off endo a, opt_rel r a ->
+  walk_rel raw endo (go_Request_parseWireOPT_loop1 f k r (Z.of_N off) raw (Z.of_N endo)) (pw_opts k raw off endo a).
+Proof. exact gen_pw_opts_loop. Qed.
+Print Assumptions parse_wire_opt_walk_is_source.
 
